@@ -143,7 +143,7 @@ pub fn run(args: &Args, rep: &mut Report, which: Which) {
             let (inputs, _) = cli::write_inputs(&idir, &set, &pr, &mut rng, "");
             let o = cli::run(&mut cli::create_cmd(ragc.as_ref().unwrap(), &path, &inputs, &p), cli::TIMEOUT);
             let r = if o.timed_out {
-                Err("timeout".to_string())
+                Err("wall-clock watchdog fired twice (180 s, then 720 s)".to_string())
             } else if !o.ok() {
                 Err(format!("exit {:?}: {}", o.code, o.stderr_tail()))
             } else {
